@@ -140,7 +140,7 @@ func (rn *runner) streamAlias(g *gen, opList []string) {
 	}
 	var probes []probe
 	probeRun := func(p probe) string {
-		return rn.runOut(p.op, p.c, p.x, p.y, p.iarg)
+		return rn.runOutPre(p.op, p.c, p.x, p.y, p.iarg, new(apd.Decimal))
 	}
 	for i := 0; i < rn.n; i++ {
 		op := opList[g.r.Intn(len(opList))]
